@@ -1962,7 +1962,8 @@ pub fn cold_subscribe_on_scenario(prop: &str, delayed: bool, bound: u32, max_exe
       drain_pool(true);
       let full = vec![Note::N(1), Note::N(2), Note::N(3), Note::C];
       let got = p0.notes();
-      if got.len() > full.len() || got[..] != full[..got.len()] {
+      // (the sequence clause is C07's; C02 asks only for silence after the cut)
+      if prop == "C07" && (got.len() > full.len() || got[..] != full[..got.len()]) {
         ctx.fail(
           format!("{prop}:not-a-prefix:{opname}"),
           format!("the source delivers [1 2 3 |]; the subscriber saw [{}]", fmt_notes(&got)),
